@@ -26,6 +26,11 @@ impl cucumber::World for PW {
 
 pub type REv = parser::Result<Event<Cucumber<PW>>>;
 
+thread_local! {
+    /// `realize` attaches a World to Failed step / hook events (what a reporter prints of it is display, not a fact)
+    pub static WITH_WORLD: std::cell::Cell<bool> = const { std::cell::Cell::new(false) };
+}
+
 #[derive(Clone, Copy, Debug, PartialEq, Eq, Hash, PartialOrd, Ord)]
 pub struct Key {
     pub feat: usize,
@@ -308,7 +313,7 @@ impl Cat {
                         ARes::Failed(err) => event::Step::Failed(
                             Some(caps()),
                             None,
-                            None,
+                            WITH_WORLD.with(std::cell::Cell::get).then(|| Arc::new(PW { n: 7 })),
                             match err {
                                 AErr::NotFound => event::StepError::NotFound,
                                 AErr::Ambiguous => event::StepError::AmbiguousMatch(
@@ -333,7 +338,7 @@ impl Cat {
                                 AHook::Started => event::Hook::Started,
                                 AHook::Passed => event::Hook::Passed,
                                 AHook::Failed(p) => event::Hook::Failed(
-                                    None,
+                                    WITH_WORLD.with(std::cell::Cell::get).then(|| Arc::new(PW { n: 7 })),
                                     Arc::new(self.payloads[*p % self.payloads.len()].clone()),
                                 ),
                             },
